@@ -1,7 +1,7 @@
 (* C13 — second layer of proofs (stretch round): the handle a writer was given
    is the handle a reader returns; the classification of key material by type
-   URL for all 37 transcribed key types; the encrypted keyset under an explicit
-   AEAD authenticity law. *)
+   URL for all 39 transcribed key types; the encrypted keyset (right key: the handle comes
+   back; wrong key or AD: reduction to the AEAD opening the ciphertext). *)
 From Coq Require Import String Ascii List Arith NArith Bool Lia ZifyN ZifyNat ZifyBool.
 From Tink Require Import Bytes UntrustedConsts Untrusted UntrustedSpec UntrustedProofs Secrets SecretsProofs SecretsWireProofs.
 Import ListNotations.
@@ -180,7 +180,7 @@ Proof.
 Qed.
 
 (* The material type and prefix type of every entry are those registered for
-   its type URL (for the 37 transcribed key types; the label it came with for
+   its type URL (for the 39 transcribed key types; the label it came with for
    any other URL): has_secrets-relevant classification by type URL. *)
 Theorem out_material_by_url ks h : handle_from_proto (Some ks) = Ok h ->
   Forall (fun e => out_material e = url_material (eurl e) (emat e)
@@ -302,12 +302,12 @@ Definition symmetric_urls : list bytes :=
    u_chacha; u_xchacha; u_xaes_gcm; u_stream_gcm_hkdf; u_stream_ctr_hmac; u_jwt_hmac].
 Definition private_urls : list bytes :=
   [u_ecdsa_priv; u_ed25519_priv; u_rsa_pkcs1_priv; u_rsa_pss_priv; u_ecies_priv; u_hpke_priv; u_jwt_ecdsa_priv;
-   u_jwt_rsa_pkcs1_priv; u_jwt_rsa_pss_priv; u_slhdsa_priv].
+   u_jwt_rsa_pkcs1_priv; u_jwt_rsa_pss_priv; u_slhdsa_priv; u_mldsa_priv; u_jwt_mldsa_priv].
 Definition public_urls : list bytes :=
   [u_ecdsa_pub; u_rsa_pkcs1_pub; u_rsa_pss_pub; u_ed25519_pub; u_ecies_pub; u_hpke_pub; u_jwt_ecdsa_pub;
    u_jwt_rsa_pkcs1_pub; u_jwt_rsa_pss_pub; u_jwt_mldsa_pub; u_mldsa_pub; u_slhdsa_pub].
 
-(* 15 + 10 + 12 = the 37 transcribed key types; every other URL keeps its label *)
+(* 15 + 12 + 12 = the 39 transcribed key types; every other URL keeps its label *)
 Theorem url_material_table :
   Forall (fun u => forall label, url_material u label = km_symmetric) symmetric_urls
   /\ Forall (fun u => forall label, url_material u label = km_private) private_urls
@@ -369,7 +369,7 @@ Proof.
     parse_ecies_pub, parse_ecies_priv, parse_hpke_pub, parse_hpke_priv,
     parse_stream_gcm_hkdf, parse_stream_ctr_hmac, parse_jwt_hmac, parse_jwt_ecdsa_pub, parse_jwt_ecdsa_priv,
     parse_jwt_rsa_pub, parse_mldsa_pub, parse_slhdsa_pub, parse_slhdsa_priv,
-    parse_jwt_rsa_priv, parse_jwt_mldsa_pub, ed25519_from_seed.
+    parse_jwt_rsa_priv, parse_jwt_mldsa_pub, parse_mldsa_priv, parse_jwt_mldsa_priv, ed25519_from_seed.
   cbv zeta. labk.
 Qed.
 
@@ -409,7 +409,7 @@ Proof.
       [exact P | | | | |]; destruct P; discriminate.
 Qed.
 
-(* THE no-secrets import theorem, all 37 transcribed key types and the
+(* THE no-secrets import theorem, all 39 transcribed key types and the
    fallback key (/repo b141c20; before it the five parsers that ignore the
    label let mislabelled symmetric keys in): on a keyset the cleartext
    construction accepts as h, NewHandleWithNoSecrets returns h iff every key
@@ -468,7 +468,7 @@ End Labels.
    and the no-secrets import now refuses it, as the export always did. *)
 Definition refuting_std : stdlib :=
   mkStd (fun _ _ => false) (fun _ _ => None) (fun _ => []) (fun _ _ => None) (fun _ _ => [])
-        (fun _ _ _ _ _ => None) (fun _ _ _ _ _ _ _ _ => false).
+        (fun _ _ _ _ _ => None) (fun _ _ _ _ _ _ _ _ => false) (fun _ _ => []).
 Definition mislabelled_hmac_keyset : keyset :=
   mkKS 7 [Some (mkPK (Some (mkKD u_hmac ([18; 4; 8; 3; 16; 16] ++ [26; 16] ++ repeat 9 16%nat) km_public))
                      st_enabled 7 pt_tink)].
@@ -514,25 +514,43 @@ Proof.
   rewrite written_binary_decodes in D by exact S. inversion D; subst ct. exists pt, ks. auto.
 Qed.
 
-(* The authenticity law, in the form "Decrypt succeeds only on what Encrypt
-   produced, under the key and associated data that produced it", relative to
-   the set of Encrypt calls that were made ([sealed k ad pt ct]). *)
-Variable sealed : K -> bytes -> bytes -> bytes -> Prop.       (* key, associated data, plaintext, ciphertext *)
-Hypothesis aead_auth : forall k ct ad pt, aead_dec k ct ad = Some pt -> sealed k ad pt ct.
+(* The event "the key-encryption AEAD opens ciphertext ct under (k', ad') and
+   what it returns is a keyset the reader accepts".  When (k', ad') is not the
+   pair that produced ct this is a key / associated-data COMMITMENT failure of
+   the AEAD on this ciphertext.  AES-GCM, ChaCha20-Poly1305 and AES-GCM-SIV are
+   not committing: for them the event is excluded only computationally, for
+   honestly chosen keys - no theorem here claims it cannot happen. *)
+Definition opens_to_a_keyset (k' : K) (ad' ct : bytes) : Prop :=
+  exists pt ks h', aead_dec k' ct ad' = Some pt /\ decode_keyset pt = Some ks /\ accepted_as ks h'.
 
-(* If the ciphertext Write produced came out of no other Encrypt call - none
-   under another key, none under other associated data - then reading it with
-   another key or other associated data is an error. *)
-Theorem wrong_key_or_ad_rejected_auth k k' h iv ad ad' b :
+(* Reduction: a reader that returns a handle under another key or other
+   associated data than Write used exhibits that event on the ciphertext Write
+   produced (the EncryptedKeyset framing hands the reader exactly that
+   ciphertext). *)
+Theorem wrong_key_or_ad_read_is_commitment_failure k k' h iv ad ad' b h' :
   write_encrypted_binary (aead_enc k) h iv ad = Ok b ->
   blen (encrypted_ct (aead_enc k) h iv ad) < two64 ->
-  (forall k0 ad0 pt0, sealed k0 ad0 pt0 (encrypted_ct (aead_enc k) h iv ad) -> k0 = k /\ ad0 = ad) ->
   (k' <> k \/ ad' <> ad) ->
+  read_encrypted k' b ad' = Ok h' ->
+  opens_to_a_keyset k' ad' (encrypted_ct (aead_enc k) h iv ad).
+Proof.
+  intros W S _ R. destruct (read_of_written_opens_the_ciphertext _ _ _ _ _ _ _ _ W S R) as (pt & ks & A & B & C).
+  exists pt, ks, h'. auto.
+Qed.
+
+(* Corollary under a hypothesis about THIS ciphertext only: if it does not
+   open under (k', ad'), or opens to bytes that are no keyset, the read is an
+   error. *)
+Theorem wrong_key_or_ad_rejected_when_ciphertext_does_not_open k k' h iv ad ad' b :
+  write_encrypted_binary (aead_enc k) h iv ad = Ok b ->
+  blen (encrypted_ct (aead_enc k) h iv ad) < two64 ->
+  (aead_dec k' (encrypted_ct (aead_enc k) h iv ad) ad' = None
+   \/ forall pt, aead_dec k' (encrypted_ct (aead_enc k) h iv ad) ad' = Some pt -> decode_keyset pt = None) ->
   read_encrypted k' b ad' = Err.
 Proof.
-  intros W S U N. destruct (read_encrypted k' b ad') as [h'| |] eqn:R; [| reflexivity |].
-  - exfalso. destruct (read_of_written_opens_the_ciphertext _ _ _ _ _ _ _ _ W S R) as (pt & ks & A & _).
-    apply aead_auth in A. apply U in A. destruct A as [A1 A2]. destruct N; congruence.
+  intros W S N. destruct (read_encrypted k' b ad') as [h'| |] eqn:R; [| reflexivity |].
+  - exfalso. destruct (read_of_written_opens_the_ciphertext _ _ _ _ _ _ _ _ W S R) as (pt & ks & A & B & _).
+    unfold encrypted_ct in N. destruct N as [N|N]; [congruence | rewrite (N pt A) in B; discriminate].
   - exfalso. exact (read_encrypted_np L _ _ _ R).
 Qed.
 
@@ -565,25 +583,3 @@ Proof.
 Qed.
 
 End Encrypted2.
-
-(* The same with the set of Encrypt calls spelled out: [sealed] = "is an output
-   of Encrypt under that key, associated data and plaintext (some IV)".
-   Law (authenticity): Decrypt succeeds only on outputs of Encrypt under the
-   same key and the same associated data.  Side condition, about Encrypt
-   alone: the ciphertext Write produced is not also an output of Encrypt under
-   another key or other associated data. *)
-Theorem wrong_key_or_ad_rejected_enc (L : stdlib) (K : Type)
-    (aead_enc : K -> bytes -> bytes -> bytes -> bytes) (aead_dec : K -> bytes -> bytes -> option bytes) :
-  (forall k ct ad pt, aead_dec k ct ad = Some pt -> exists iv, ct = aead_enc k iv pt ad) ->
-  forall k k' h iv ad ad' b,
-    write_encrypted_binary (aead_enc k) h iv ad = Ok b ->
-    blen (encrypted_ct (aead_enc k) h iv ad) < two64 ->
-    (forall k0 iv0 pt0 ad0, aead_enc k0 iv0 pt0 ad0 = encrypted_ct (aead_enc k) h iv ad -> k0 = k /\ ad0 = ad) ->
-    (k' <> k \/ ad' <> ad) ->
-    read_encrypted L (aead_dec k') b ad' = Err.
-Proof.
-  intros Auth k k' h iv ad ad' b W S U N.
-  apply (wrong_key_or_ad_rejected_auth L K aead_enc aead_dec
-           (fun k ad pt ct => exists iv, ct = aead_enc k iv pt ad) Auth k k' h iv ad ad' b W S); [|exact N].
-  intros k0 ad0 pt0 (iv0 & E). apply (U k0 iv0 pt0 ad0). symmetry. exact E.
-Qed.
